@@ -1,4 +1,5 @@
 import MosdnsVerif.Lemmas.C20Inv
+import MosdnsVerif.Model.C20Pool
 import MosdnsVerif.Gen.Facts
 
 /-!
@@ -110,11 +111,80 @@ theorem close_before_send_is_wrong :
     ∃ ls s, run ⟨true, true, true, false⟩ init ls = some s ∧ s.result = .sec ∧ s.sqExcuse = false :=
   ⟨[.sStart, .sFinish, .pFinish, .pOp, .sWaitDone, .mRecv], _, rfl, rfl, rfl⟩
 
+/-! ### The threshold timer comes from a process-wide pool
+
+`Model.C20.init` starts every call with an unfired threshold timer. The timer
+is borrowed from `pkg/pool`, so that is a statement about what earlier calls
+left behind. -/
+section Pool
+open Model.C20Pool
+
+theorem use_keeps_inv (us : List Use) : ∀ t : PTimer, (t.armed = true → t.tick = false) →
+    (us.foldl use t).armed = true → (us.foldl use t).tick = false := by
+  induction us with
+  | nil => intro t h; exact h
+  | cons u us ih =>
+    intro t h
+    apply ih
+    cases u with
+    | fire =>
+      cases ha : t.armed
+      · simp [use, ha]
+      · simp [use, ha]
+    | recv => intro _; rfl
+
+/-- **A call starts with an unfired threshold timer.** Whatever happened to the
+timer during any number of earlier borrows (it fired or not, its tick was
+received or not, in any order), `GetTimer` hands it out pending and with an
+empty channel - provided `ReleaseTimer` drains a timer that had already fired. -/
+theorem handed_out_unfired (hist : List (List Use)) :
+    (handedOut true hist).armed = true ∧ (handedOut true hist).tick = false := by
+  induction hist with
+  | nil => exact ⟨rfl, rfl⟩
+  | cons us older ih =>
+    refine ⟨rfl, ?_⟩
+    have h := use_keeps_inv us (handedOut true older) (fun _ => ih.2)
+    simp only [handedOut, reset, release]
+    cases ha : (us.foldl use (handedOut true older)).armed
+    · simp
+    · simpa using h ha
+
+/-- ... so the theorems above, stated from `init`, apply to every call of a
+process, not only to the first one. -/
+theorem call_starts_at_init (drains : Bool) (hd : drains = true) (hist : List (List Use)) :
+    initOf (handedOut drains hist) = init := by
+  subst hd
+  simp [initOf, (handed_out_unfired hist).2, init]
+
+theorem fallback_safe_any_call (c : Cfg) (hsf : c.sendFirst = true) (drains : Bool) (hd : drains = true)
+    (hist : List (List Use)) (ls : List Label) (s : St)
+    (hr : run c (initOf (handedOut drains hist)) ls = some s) :
+    (s.result = .sec → s.sqExcuse = true ∧ c.sAns = true) ∧
+    (s.result = .failed → c.pAns = false ∧ c.sAns = false) ∧
+    (s.result = .prim → c.pAns = true) := by
+  rw [call_starts_at_init drains hd hist] at hr
+  exact fallback_safe c hsf ls s hr
+
+/-- Without the drain it is wrong: an earlier call in which the timer fired
+while nobody was receiving (the primary failed early and the secondary then
+worked past the threshold) leaves its tick in the pooled timer, and in the
+next call the secondary is started by it at once - no `timerFire` in the
+schedule - although the primary is within the threshold. -/
+theorem release_without_drain_is_wrong :
+    (handedOut false [[.fire]]).tick = true ∧
+    ∃ s, run ⟨true, true, false, true⟩ (initOf (handedOut false [[.fire]])) [.sPickTimer] = some s ∧
+      secStarted s = true ∧ primFailed ⟨true, true, false, true⟩ s = false :=
+  ⟨rfl, _, rfl, rfl, rfl⟩
+
+end Pool
+
 /-! ### Guards over the regenerated facts -/
 theorem facts_guard :
     Gen.Facts.c20PrimarySendsBeforeClose = some true ∧ Gen.Facts.c20PrimaryFailClosesThenSendsNil = some true ∧
     Gen.Facts.c20RespChanCap = some 2 ∧ Gen.Facts.c20FirstSelectCases = some true ∧
-    Gen.Facts.c20SecondSelectCases = some true ∧ Gen.Facts.c20CollectLoop = some true := by decide
+    Gen.Facts.c20SecondSelectCases = some true ∧ Gen.Facts.c20CollectLoop = some true ∧
+    Gen.Facts.c20ThresholdTimerFromPool = some true ∧ Gen.Facts.c20ReleaseTimerDrains = some true ∧
+    Gen.Facts.c20GetTimerOnlyResets = some true := by decide
 
 /-! ### Non-vacuity: an in-time primary with a finished standby secondary; a slow primary -/
 example : (run ⟨true, true, true, true⟩ init [.sStart, .sFinish, .pFinish, .pOp, .pOp, .sWaitDone, .mRecv]).map (·.result) = some .prim := by decide
